@@ -220,11 +220,18 @@ def apply(src, m):
 def generate(args):
     rng = random.Random(args.seed)
     plan = []
+    earlier = set()
+    for old in OUT.glob('plan*.json'):
+        for m in json.loads(old.read_text())['mutants']:
+            earlier.add((m['file'], tuple(m['mutation'][:6])))
     for rel in FILE_CHECKS:
+        if args.files and rel not in args.files.split(','):
+            continue
         path = REPO / rel
         src, ms = mutants_of(path)
         # weight: sample evenly over kinds so that the many int/compare mutants do not crowd out the rest
         by_kind = {}
+        ms = [m for m in ms if (rel, tuple(m[:6])) not in earlier]
         for m in ms:
             by_kind.setdefault(m[0], []).append(m)
         n = min(len(ms), max(4, int(args.per_file * len(src.splitlines()) / 400)))
@@ -239,10 +246,10 @@ def generate(args):
                 if len(picked) >= n:
                     break
         for i, m in enumerate(picked):
-            plan.append({'name': f'{Path(rel).stem.strip("_")}-{m[1]}-{m[0]}-{i}', 'file': rel, 'mutation': list(m)})
+            plan.append({'name': f'{args.tag}{Path(rel).stem.strip("_")}-{m[1]}-{m[0]}-{i}', 'file': rel, 'mutation': list(m)})
         print(rel, 'candidates', len(ms), 'sampled', len(picked))
     OUT.mkdir(parents=True, exist_ok=True)
-    (OUT / 'plan.json').write_text(json.dumps({'repo_head': sh('git -C /repo rev-parse HEAD').stdout.strip(), 'seed': args.seed, 'mutants': plan}, indent=1))
+    (OUT / f'plan{args.tag}.json').write_text(json.dumps({'repo_head': sh('git -C /repo rev-parse HEAD').stdout.strip(), 'seed': args.seed, 'mutants': plan}, indent=1))
     print('total', len(plan))
 
 
@@ -259,7 +266,7 @@ def worker(idx, queue, args, results, head):
             break
         name = mu['name']
         path = wt / mu['file']
-        src = (REPO / mu['file']).read_text()
+        src = sh(['git', '-C', str(REPO), 'show', f'{head}:{mu["file"]}']).stdout
         res = {'file': mu['file'], 'kind': mu['mutation'][0], 'line': mu['mutation'][1], 'note': mu['mutation'][6]}
         try:
             new = apply(src, tuple(mu['mutation']))
@@ -303,24 +310,31 @@ def worker(idx, queue, args, results, head):
             sh(f'git -C {wt} checkout -- .; git -C {wt} clean -fdq')
         results[name] = res
         print(f'[{len(results)}] {name}: {res["status"]} {res.get("caught_by", "")} | {res["note"][:50]}', flush=True)
-        (OUT / 'results.json').write_text(json.dumps(results, indent=1))
+        (OUT / f'results{args.tag}.json').write_text(json.dumps(results, indent=1))
     sh(f'git -C /repo worktree remove --force {wt}')
 
 
 def run(args):
-    plan = json.loads((OUT / 'plan.json').read_text())
-    head = sh('git -C /repo rev-parse HEAD').stdout.strip()
+    plan = json.loads((OUT / f'plan{args.tag}.json').read_text())
+    head = plan['repo_head']          # positions in the plan refer to this commit
     results = {}
-    if args.resume and (OUT / 'results.json').exists():
-        results = json.loads((OUT / 'results.json').read_text())
+    if args.resume and (OUT / f'results{args.tag}.json').exists():
+        results = json.loads((OUT / f'results{args.tag}.json').read_text())
     queue = [m for m in plan['mutants'] if m['name'] not in results and (not args.only or m['file'] == args.only)]
     queue.reverse()
     with ThreadPoolExecutor(args.workers) as ex:
         futs = [ex.submit(worker, i, queue, args, results, head) for i in range(args.workers)]
         for f in futs:
             f.result()
-    (OUT / 'results.json').write_text(json.dumps(results, indent=1))
-    report(results)
+    (OUT / f'results{args.tag}.json').write_text(json.dumps(results, indent=1))
+    report(all_results())
+
+
+def all_results():
+    out = {}
+    for f in sorted(OUT.glob('results*.json')):
+        out.update(json.loads(f.read_text()))
+    return out
 
 
 def report(results):
@@ -345,13 +359,14 @@ def report(results):
 
 
 def show(args):
-    plan = json.loads((OUT / 'plan.json').read_text())
-    for m in plan['mutants']:
-        if m['name'] == args.name:
-            src = (REPO / m['file']).read_text()
-            new = apply(src, tuple(m['mutation']))
-            import difflib
-            sys.stdout.writelines(difflib.unified_diff(src.splitlines(keepends=True), new.splitlines(keepends=True), m['file'], m['file'], n=4))
+    for pf in sorted(OUT.glob('plan*.json')):
+      plan = json.loads(pf.read_text())
+      for m in plan['mutants']:
+          if m['name'] == args.name:
+              src = sh(['git', '-C', str(REPO), 'show', f'{plan["repo_head"]}:{m["file"]}']).stdout
+              new = apply(src, tuple(m['mutation']))
+              import difflib
+              sys.stdout.writelines(difflib.unified_diff(src.splitlines(keepends=True), new.splitlines(keepends=True), m['file'], m['file'], n=4))
 
 
 def main():
@@ -360,7 +375,10 @@ def main():
     g = sub.add_parser('generate')
     g.add_argument('--seed', type=int, default=1)
     g.add_argument('--per-file', type=int, default=12)
+    g.add_argument('--tag', default='', help='suffix of the plan file and prefix of the mutant names (second, third ... sample)')
+    g.add_argument('--files', default='', help='comma-separated subset of files')
     r = sub.add_parser('run')
+    r.add_argument('--tag', default='')
     r.add_argument('--workers', type=int, default=4)
     r.add_argument('--jobs', type=int, default=4)
     r.add_argument('--only')
@@ -377,7 +395,7 @@ def main():
     elif args.cmd == 'show':
         show(args)
     else:
-        report(json.loads((OUT / 'results.json').read_text()))
+        report(all_results())
 
 
 if __name__ == '__main__':
